@@ -349,3 +349,219 @@ Proof.
         apply H3. lia.
     + pose proof (zlen_nonneg l). split; [lia|split]; [intros; lia|]. intros _. rewrite znth_0. lia.
 Qed.
+
+(** * Part 3: well-formedness in index form, monotonicity *)
+
+Definition P (m : imap) (j : Z) : Z := znth 0 (gap_pos m) j.
+Definition C (m : imap) (j : Z) : Z := znth 0 (cum_gap_lengths m) j.
+(** cumulative gap length before gap [j] *)
+Definition Cp (m : imap) (j : Z) : Z := cpv 0 (cum_gap_lengths m) j.
+(** alignment coordinates of gap [j] *)
+Definition gs (m : imap) (j : Z) : Z := P m j + Cp m j.
+Definition ge (m : imap) (j : Z) : Z := P m j + C m j.
+
+Lemma wf_from_index gp : forall pp pc cl plen,
+  wf_from pp pc gp cl plen <->
+  (zlen gp = zlen cl /\
+   (zlen gp = 0 -> pp <= plen) /\
+   (0 < zlen gp -> pp < znth 0 gp 0 /\ pc < znth 0 cl 0 /\ znth 0 gp (zlen gp - 1) <= plen) /\
+   (forall j, 0 <= j -> j + 1 < zlen gp ->
+      znth 0 gp j < znth 0 gp (j + 1) /\ znth 0 cl j < znth 0 cl (j + 1))).
+Proof.
+  induction gp as [|p gp IH]; intros pp pc cl plen.
+  - destruct cl as [|c cl]; cbn [wf_from]; znil.
+    + split.
+      * intros H. split; [reflexivity|]. split; [auto|]. split; intros; lia.
+      * intros (_ & H & _). auto.
+    + rewrite zlen_cons. pose proof (zlen_nonneg cl). split; [tauto|]. intros (H' & _). lia.
+  - destruct cl as [|c cl]; cbn [wf_from].
+    + rewrite zlen_cons. znil. pose proof (zlen_nonneg gp). split; [tauto|]. intros (H' & _). lia.
+    + rewrite !zlen_cons. rewrite IH. pose proof (zlen_nonneg gp) as Hn. split.
+      * intros (Hpp & Hpc & Hl & H0 & H1 & Hs).
+        split; [lia|]. split; [lia|]. split.
+        -- intros _. rewrite !znth_0. split; [lia|]. split; [lia|].
+           destruct (Z.eq_dec (zlen gp) 0) as [E|E].
+           ++ rewrite E. replace (1 + 0 - 1) with 0 by lia. rewrite znth_0. auto.
+           ++ rewrite znth_pos by lia. replace (1 + zlen gp - 1 - 1) with (zlen gp - 1) by lia.
+              apply H1. lia.
+        -- intros j Hj Hj1. destruct (Z.eq_dec j 0) as [->|Hne].
+           ++ rewrite !znth_0. rewrite !(znth_pos 0 _ _ (0 + 1)) by lia.
+              replace (0 + 1 - 1) with 0 by lia. destruct H1 as (A & B & _); [lia|]. lia.
+           ++ rewrite !(znth_pos 0 _ _ j) by lia. rewrite !(znth_pos 0 _ _ (j + 1)) by lia.
+              replace (j + 1 - 1) with (j - 1 + 1) by lia. apply Hs; lia.
+      * intros (Hl & _ & H1 & Hs). destruct H1 as (A & B & D); [lia|]. rewrite !znth_0 in *.
+        split; [lia|]. split; [lia|]. split; [lia|]. split; [|split].
+        -- intros E. rewrite E in D. replace (1 + 0 - 1) with 0 in D by lia. rewrite znth_0 in D. auto.
+        -- intros Hpos. specialize (Hs 0). rewrite !znth_0 in Hs.
+           rewrite !(znth_pos 0 _ _ (0 + 1)) in Hs by lia. replace (0 + 1 - 1) with 0 in Hs by lia.
+           destruct Hs as (S1 & S2); [lia|lia|]. split; [lia|]. split; [lia|].
+           rewrite znth_pos in D by lia. replace (1 + zlen gp - 1 - 1) with (zlen gp - 1) in D by lia. auto.
+        -- intros j Hj Hj1. specialize (Hs (j + 1)).
+           rewrite !(znth_pos 0 _ _ (j + 1)) in Hs by lia. rewrite !(znth_pos 0 _ _ (j + 1 + 1)) in Hs by lia.
+           replace (j + 1 - 1) with j in Hs by lia. replace (j + 1 + 1 - 1) with (j + 1) in Hs by lia.
+           apply Hs; lia.
+Qed.
+
+Definition WFi (m : imap) : Prop :=
+  zlen (gap_pos m) = zlen (cum_gap_lengths m) /\
+  0 <= parent_length m /\
+  (0 < num_gaps m -> 0 <= P m 0 /\ 0 < C m 0 /\ P m (num_gaps m - 1) <= parent_length m) /\
+  (forall j, 0 <= j -> j + 1 < num_gaps m -> P m j < P m (j + 1) /\ C m j < C m (j + 1)).
+
+Lemma WF_WFi m : WF m <-> WFi m.
+Proof.
+  unfold WF, WFi, num_gaps, P, C. rewrite wf_from_index. split.
+  - intros (Hp & Hl & H0 & H1 & Hs). split; [auto|]. split; [auto|]. split; [|auto].
+    intros Hn. destruct (H1 Hn) as (A & B & D). lia.
+  - intros (Hl & Hp & H1 & Hs). split; [auto|]. split; [auto|]. split; [lia|]. split; [|auto].
+    intros Hn. destruct (H1 Hn) as (A & B & D). lia.
+Qed.
+
+Section WithWF.
+  Variable m : imap.
+  Hypothesis Hwf : WFi m.
+
+  Let n := num_gaps m.
+
+  Lemma wfi_len : zlen (cum_gap_lengths m) = n.
+  Proof. destruct Hwf as (H & _). unfold n, num_gaps. lia. Qed.
+
+  Lemma wfi_plen : 0 <= parent_length m.
+  Proof. destruct Hwf as (_ & H & _). auto. Qed.
+
+  Lemma n_nonneg : 0 <= n.
+  Proof. apply zlen_nonneg. Qed.
+
+  Lemma PC_mono i k : 0 <= i -> 0 <= k -> i + 1 + k < n ->
+    P m i < P m (i + 1 + k) /\ C m i < C m (i + 1 + k).
+  Proof.
+    intros Hi Hk. revert k Hk. apply (natlike_ind (fun k => i + 1 + k < n -> _)).
+    - intros H. replace (i + 1 + 0) with (i + 1) by lia.
+      destruct Hwf as (_ & _ & _ & Hs). apply Hs; fold n; lia.
+    - intros k Hk IH H. destruct IH as (A & B); [lia|].
+      destruct Hwf as (_ & _ & _ & Hs). destruct (Hs (i + 1 + k)) as (A' & B'); [lia|fold n; lia|].
+      replace (i + 1 + Z.succ k) with (i + 1 + k + 1) by lia. lia.
+  Qed.
+
+  Lemma P_mono i j : 0 <= i -> i < j -> j < n -> P m i < P m j.
+  Proof.
+    intros. replace j with (i + 1 + (j - i - 1)) by lia. apply PC_mono; lia.
+  Qed.
+
+  Lemma C_mono i j : 0 <= i -> i < j -> j < n -> C m i < C m j.
+  Proof.
+    intros. replace j with (i + 1 + (j - i - 1)) by lia. apply PC_mono; lia.
+  Qed.
+
+  Lemma P_bounds j : 0 <= j < n -> 0 <= P m j <= parent_length m.
+  Proof.
+    intros H. destruct Hwf as (_ & _ & H1 & _). destruct H1 as (A & B & D); [fold n; lia|]. fold n in D.
+    assert (P m 0 <= P m j).
+    { destruct (Z.eq_dec j 0) as [->|]; [lia|]. pose proof (P_mono 0 j). lia. }
+    assert (P m j <= P m (n - 1)).
+    { destruct (Z.eq_dec j (n - 1)) as [->|]; [lia|]. pose proof (P_mono j (n - 1)). lia. }
+    lia.
+  Qed.
+
+  Lemma C_pos j : 0 <= j < n -> 0 < C m j.
+  Proof.
+    intros H. destruct Hwf as (_ & _ & H1 & _). destruct H1 as (A & B & D); [fold n; lia|].
+    destruct (Z.eq_dec j 0) as [->|]; [lia|]. pose proof (C_mono 0 j). lia.
+  Qed.
+
+  Lemma Cp_0 : Cp m 0 = 0.
+  Proof. reflexivity. Qed.
+
+  Lemma Cp_succ j : 0 <= j -> Cp m (j + 1) = C m j.
+  Proof.
+    intros. unfold Cp, cpv, C. destruct (j + 1 <=? 0) eqn:E; [lia|]. f_equal. lia.
+  Qed.
+
+  Lemma Cp_pos j : 0 < j -> Cp m j = C m (j - 1).
+  Proof.
+    intros. unfold Cp, cpv, C. destruct (j <=? 0) eqn:E; [lia|]. reflexivity.
+  Qed.
+
+  Lemma Cp_lt_C j : 0 <= j < n -> 0 <= Cp m j < C m j.
+  Proof.
+    intros H. destruct (Z.eq_dec j 0) as [->|Hne].
+    - rewrite Cp_0. pose proof (C_pos 0). lia.
+    - rewrite Cp_pos by lia. pose proof (C_pos (j - 1)). pose proof (C_mono (j - 1) j). lia.
+  Qed.
+
+  Lemma Cp_mono i j : 0 <= i -> i <= j -> j <= n -> Cp m i <= Cp m j.
+  Proof.
+    intros Hi Hij Hj. destruct (Z.eq_dec i j) as [->|Hne]; [lia|].
+    destruct (Z.eq_dec i 0) as [->|Hi0].
+    - rewrite Cp_0. rewrite Cp_pos by lia. pose proof (C_pos (j - 1)). lia.
+    - rewrite !Cp_pos by lia. destruct (Z.eq_dec (i - 1) (j - 1)); [lia|].
+      pose proof (C_mono (i - 1) (j - 1)). lia.
+  Qed.
+
+  Lemma gs_lt_ge j : 0 <= j < n -> 0 <= gs m j < ge m j.
+  Proof.
+    intros H. unfold gs, ge. pose proof (Cp_lt_C j H). pose proof (P_bounds j H). lia.
+  Qed.
+
+  Lemma ge_lt_gs i j : 0 <= i -> i < j -> j < n -> ge m i < gs m j.
+  Proof.
+    intros. unfold gs, ge. pose proof (P_mono i j). pose proof (Cp_mono (i + 1) j).
+    rewrite Cp_succ in * by lia. lia.
+  Qed.
+
+  Lemma ge_mono i j : 0 <= i -> i < j -> j < n -> ge m i < ge m j.
+  Proof. intros. pose proof (ge_lt_gs i j). pose proof (gs_lt_ge j). lia. Qed.
+
+  Lemma gs_mono i j : 0 <= i -> i < j -> j < n -> gs m i < gs m j.
+  Proof. intros. pose proof (ge_lt_gs i j). pose proof (gs_lt_ge i). lia. Qed.
+
+  Lemma zlen_gap_ends : zlen (gap_ends m) = n.
+  Proof. unfold gap_ends. rewrite zlen_add2, wfi_len. unfold n, num_gaps. lia. Qed.
+
+  Lemma zlen_gap_starts : zlen (gap_starts m) = n.
+  Proof.
+    unfold gap_starts. rewrite zlen_add2, zlen_cons, wfi_len. unfold n, num_gaps.
+    pose proof (zlen_nonneg (gap_pos m)). lia.
+  Qed.
+
+  Lemma znth_gap_ends j : 0 <= j < n -> znth 0 (gap_ends m) j = ge m j.
+  Proof.
+    intros. unfold gap_ends. rewrite znth_add2; [reflexivity|]. rewrite wfi_len. unfold n, num_gaps in *. lia.
+  Qed.
+
+  Lemma znth_gap_starts j : 0 <= j < n -> znth 0 (gap_starts m) j = gs m j.
+  Proof.
+    intros. unfold gap_starts. rewrite znth_add2.
+    - unfold gs, P, Cp, cpv. f_equal. destruct (Z.eq_dec j 0) as [->|Hne].
+      + rewrite znth_0. reflexivity.
+      + rewrite znth_pos by lia. destruct (j <=? 0) eqn:E; [lia|]. reflexivity.
+    - rewrite zlen_cons, wfi_len. unfold n, num_gaps in *. lia.
+  Qed.
+
+  Lemma zlast_gap_ends : 0 < n -> zlast (gap_ends m) = ge m (n - 1).
+  Proof.
+    intros. rewrite zlast_znth by (rewrite zlen_gap_ends; lia). rewrite zlen_gap_ends.
+    apply znth_gap_ends. lia.
+  Qed.
+
+  Lemma zlast_cum : 0 < n -> zlast (cum_gap_lengths m) = C m (n - 1).
+  Proof. intros. rewrite zlast_znth by (rewrite wfi_len; lia). rewrite wfi_len. reflexivity. Qed.
+
+  Lemma zlast_gp : 0 < n -> zlast (gap_pos m) = P m (n - 1).
+  Proof. intros. rewrite zlast_znth by (unfold n, num_gaps in *; lia). reflexivity. Qed.
+
+  (** total length *)
+  Lemma len_eq : len m = parent_length m + Cp m n.
+  Proof.
+    unfold len. fold n. destruct (n =? 0) eqn:E.
+    - assert (n = 0) by lia. rewrite H. rewrite Cp_0. reflexivity.
+    - pose proof n_nonneg. rewrite zlast_cum by lia. rewrite Cp_pos by lia. reflexivity.
+  Qed.
+
+  Lemma ge_le_len j : 0 <= j < n -> ge m j <= len m.
+  Proof.
+    intros. rewrite len_eq. unfold ge. pose proof (P_bounds j H). pose proof (Cp_mono (j + 1) n).
+    rewrite Cp_succ in * by lia. lia.
+  Qed.
+
+End WithWF.
